@@ -177,7 +177,8 @@ def rng_tau(c):
 def make_model(c):
     box = {name: dom for name, kind, dom in c.params if kind in ('box', 'intbox')}
     ints = [name for name, kind, dom in c.params if kind in ('int', 'intbox')]
-    return I.LoggedModel([p[0] for p in c.params], kind=c.model_kind, blobs=c.blobs, box=box, ints=ints)
+    return I.LoggedModel([p[0] for p in c.params], kind=c.model_kind, blobs=c.blobs, box=box, ints=ints,
+                         reuse_blob=(c.seed % 3 == 0))
 
 
 def start_positions(c):
